@@ -1,7 +1,7 @@
 /* C15-O2 (block level): the real jls_core_rd_fsr_data0 + reconstruct_omitted_chunk (src/core.c) load the block that holds a
  * requested sample.  Seams: jls_core_rd_fsr_level1 (provides the cached level-1 index + summary covering the request) and
  * jls_core_rd_chunk / jls_raw_chunk_seek (serve the stored DATA chunks).
- * Signal of 3 blocks: blocks 0 and 2 stored with symbolic bytes, block 1 omitted by the writer because it was constant
+ * Signal of 3 blocks: two stored with symbolic bytes, block OMIT (1 = middle, 2 = last) omitted by the writer because it was constant
  * (symbolic constant c); its level-1 summary entries carry mean = c, as the real reduction produces (C02).  For any requested
  * sample (symbolic, aligned or not) the loaded block must be THE block of that sample: first sample id = block start, full
  * entry count, entry width (also for the reconstructed block), bytes of stored blocks = the written ones -- so that the caller's
@@ -26,6 +26,12 @@
 #define NB 3
 #define BLKBYTES ((BLOCK * BITS) / 8)
 #define TOTAL (NB * BLOCK)
+#ifndef OMIT
+#define OMIT 1             /* which of the 3 blocks the writer omitted (1: middle, 2: last -- then the summary chunk ends with the omitted
+                            * block's entries, so an index into the summary that is not computed from the block start runs off the end
+                            * and the block comes back short) */
+#endif
+#define STORED2 (OMIT == 1 ? 2 : 1)   /* the second stored block */
 #define OFF_A 8192
 #define OFF_C 12288
 
@@ -40,7 +46,7 @@ int32_t jls_raw_chunk_seek(struct jls_raw_s * self, int64_t offset) { (void) sel
 int64_t jls_raw_chunk_tell(struct jls_raw_s * self) { (void) self; return pos; }
 
 int32_t jls_core_rd_chunk(struct jls_core_s * self) {
-    int k = (pos == OFF_A) ? 0 : ((pos == OFF_C) ? 2 : -1);
+    int k = (pos == OFF_A) ? 0 : ((pos == OFF_C) ? STORED2 : -1);
     CHECK(k >= 0, "only stored DATA chunks are read from the file");
     if (k < 0) { return JLS_ERROR_NOT_FOUND; }
     struct jls_fsr_data_s * r = (struct jls_fsr_data_s *) self->buf->start;
@@ -68,8 +74,8 @@ int32_t jls_core_rd_fsr_level1(struct jls_core_s * self, uint16_t signal_id, int
     ix->header.entry_size_bits = 64;
     ix->header.rsv16 = 0;
     ix->offsets[0] = OFF_A;
-    ix->offsets[1] = 0;            /* omitted */
-    ix->offsets[2] = OFF_C;
+    ix->offsets[OMIT] = 0;            /* omitted */
+    ix->offsets[STORED2] = OFF_C;
     self->rd_index->length = 16 + 8 * NB;
     struct jls_fsr_f32_summary_s * sm = (struct jls_fsr_f32_summary_s *) self->rd_summary->start;
     sm->header.timestamp = first_id;
@@ -80,7 +86,7 @@ int32_t jls_core_rd_fsr_level1(struct jls_core_s * self, uint16_t signal_id, int
                                                                  * CBMC 6.11's simplifier aborts on an lvalue through the flexible float data[][4] member */
     for (unsigned e = 0; e < NB * (BLOCK / SDF); ++e) {
         float v = 3.0f;
-        if (e / (BLOCK / SDF) == 1) {
+        if (e / (BLOCK / SDF) == OMIT) {
             v = (float) cval;
         }
         sd[e * 4 + JLS_SUMMARY_FSR_MEAN] = v;
@@ -133,13 +139,13 @@ void harness(void) {
     SYM_U8(c);
 #if BITS == 8
     cval = c;
-    memset(store + BLKBYTES, c, BLKBYTES);
+    memset(store + OMIT * BLKBYTES, c, BLKBYTES);
 #elif BITS == 4
     cval = c & 0x0f;
-    memset(store + BLKBYTES, (uint8_t) (cval | (cval << 4)), BLKBYTES);
+    memset(store + OMIT * BLKBYTES, (uint8_t) (cval | (cval << 4)), BLKBYTES);
 #else
     cval = c & 1;
-    memset(store + BLKBYTES, cval ? 0xff : 0x00, BLKBYTES);
+    memset(store + OMIT * BLKBYTES, cval ? 0xff : 0x00, BLKBYTES);
 #endif
 #ifdef DELTA
     const uint32_t delta = DELTA;                     /* the requested sample: concrete per instance (a symbolic request makes the index into the
@@ -157,7 +163,7 @@ void harness(void) {
     CHECK(r->header.entry_size_bits == BITS && r->header.rsv16 == 0, "entry width as defined");
     SYM_U32(w);
     ASSUME(w < BLKBYTES);
-    if (k != 1) {
+    if (k != OMIT) {
         CHECK(((uint8_t *) r->data)[w] == store[k * BLKBYTES + w], "bytes of a stored block are the written ones");
     }
     /* The VALUE written into a reconstructed block (the level-1 mean, read in core.c through the flexible member float data[][4]) is not asserted:
